@@ -142,7 +142,7 @@ class C13(Check):
                 "Pox.C13.barrier_after", "Pox.C13.errors_spec", "Pox.C13.replies_carry_xid", "Pox.C13.set_config_visible",
                 "Pox.C13.buffer_unknown_defect", "Pox.C13.unhandled_type_fails"]
     anchors = [("pox/datapaths/switch.py", 135, 175), ("pox/datapaths/switch.py", 234, 246), ("pox/datapaths/switch.py", 266, 420),
-               ("pox/datapaths/switch.py", 452, 469), ("pox/datapaths/switch.py", 978, 1032)]
+               ("pox/datapaths/switch.py", 452, 472), ("pox/datapaths/switch.py", 962, 1035)]
     coverage_cases = 200
     design_ref = "DESIGN.md §5 C13"
     technique = ("Lean 4 proof over a hand-written executable model of rx_message and the _rx_*/_stats_*/_flow_mod_* handlers, whose dispatch tables, "
@@ -353,7 +353,7 @@ class C13(Check):
         return m
 
     def gen_case(self, rng, n, mode, buffers=True, unhandled=False):
-        st = copy.deepcopy(rng.choice(self.STATES))
+        st = copy.deepcopy(rng.choice(self.STATES + [self.STATES[0]] * 3))
         if rng.random() < 0.3:
             st["max_buffers"] = rng.choice([0, 1, 2, 100]); st["max_entries"] = rng.choice([0, 1, 2, 5, 0x7fffffff])
         ctx = {"handed": 0}
@@ -449,7 +449,7 @@ class C13(Check):
         return cases
 
     def generate(self, rng, tier):
-        n = 260 if tier == "quick" else 6000
+        n = 1500 if tier == "quick" else 30000
         for i in range(n):
             L = rng.choice([2, 5, 10, 20, 40, 40, rng.randint(1, 40)])
             r = rng.random()
@@ -495,14 +495,25 @@ class C13(Check):
                 st = push(raw)
                 if w.closed: st = "closed"
                 groups.append({"out": decode_stream(take()), "exc": list(excs), "st": st})
-            return {"mode": "step", "groups": groups, "alive": not w.closed, "left": len(w.receive_buf)}
+            return {"mode": "step", "groups": groups, "alive": not w.closed, "left": len(w.receive_buf), "final": self.final_state(node)}
         stream = b"".join(raws)
         cuts = sorted(set(c for c in case.get("cuts", []) if 0 < c < len(stream)))
         out, sts, prev = b"", [], 0
         for c in cuts + [len(stream)]:
             sts.append(push(stream[prev:c])); prev = c
             out += take()
-        return {"mode": "batch", "stream": decode_stream(out), "exc": list(excs), "st": sorted(set(sts)), "alive": not w.closed, "left": len(w.receive_buf)}
+        return {"mode": "batch", "stream": decode_stream(out), "exc": list(excs), "st": sorted(set(sts)), "alive": not w.closed, "left": len(w.receive_buf),
+                "final": self.final_state(node)}
+
+    def final_state(self, node):
+        """abstraction of the real switch object after the sequence (compared with the model's final state)"""
+        sw, of = node.sw, self.of
+        def mkey(m):
+            return None if (m.wildcards & 1) else m.in_port
+        return {"config": [sw.config_flags, sw.miss_send_len], "hello": bool(sw._has_sent_hello),
+                "ports": [[p.port_no, int.from_bytes(p.hw_addr.toRaw(), "big"), p.config, p.state] for p in sw.ports.values()],
+                "table": [[e.priority, e.cookie, mkey(e.match), e.flags, [a.port for a in e.actions if isinstance(a, of.ofp_action_output)]] for e in sw.table.entries],
+                "buffers": [0 if b is None else 1 for b in sw._packet_buffer]}
 
     # ------------------------------------------------------------------ model
 
@@ -515,8 +526,8 @@ class C13(Check):
 
     def model_obs(self, case, resp):
         if "groups" not in resp: return resp
-        if case["mode"] == "step": return {"groups": resp["groups"]}
-        return {"stream": [r for g in resp["groups"] for r in g.get("out", [])]}
+        if case["mode"] == "step": return {"groups": resp["groups"], "final": resp.get("final")}
+        return {"stream": [r for g in resp["groups"] for r in g.get("out", [])], "final": resp.get("final")}
 
     @staticmethod
     def _strip(r):
@@ -524,8 +535,8 @@ class C13(Check):
 
     def impl_view(self, case, obs):
         if obs["mode"] == "step":
-            return {"groups": [({"fail": g["exc"][0]} if g["exc"] else {"out": [self._strip(r) for r in g["out"]]}) for g in obs["groups"]]}
-        return {"stream": [self._strip(r) for r in obs["stream"]]}
+            return {"groups": [({"fail": g["exc"][0]} if g["exc"] else {"out": [self._strip(r) for r in g["out"]]}) for g in obs["groups"]], "final": obs["final"]}
+        return {"stream": [self._strip(r) for r in obs["stream"]], "final": obs["final"]}
 
     # ------------------------------------------------------------------ oracle (independent of the model)
 
@@ -582,7 +593,7 @@ class C13(Check):
             case_state = ctx["state"]
             return one(is_type("features_reply", f), "features_reply")
         if k == "get_config_request":
-            return one(is_type("get_config_reply", lambda r: None if (r["flags"], r["miss"]) == ctx["config"] else "config-not-the-last-set-%s" % (ctx["config"],)), "get_config_reply")
+            return one(is_type("get_config_reply", lambda r: None if (r["flags"], r["miss"]) == ctx["config"] else "config-not-the-last-set"), "get_config_reply")
         if k == "set_config":
             ctx["config"] = (m["flags"], m["miss"])
             return silent()
